@@ -154,7 +154,7 @@ def run_obligation(prop, o, tier, seed, scratch):
                decisions=st.get('decisions', 0), solver_calls=st.get('solver_calls', 0),
                solver_s=st.get('solver_s', 0.0), cpu_s=st.get('cpu_s'), wall_s=round(time.time() - t0, 1),
                marks_hit=sorted(ok_marks), marks_missing=missing_marks, violations=viol, aborted=aborted,
-               bounds=o.bounds, outside=o.out, expected_exhaustive=o.exhaustive, functions=functions,
+               bounds=o.bounds, outside=o.out, expected_exhaustive=o.exhaustive_for(tier), functions=functions,
                samples=samples, fstrings_stubbed=st.get('fstrings_stubbed'), error_samples=err_samples)
     if viol:
         res['verdict'] = 'VIOLATION'
@@ -164,7 +164,7 @@ def run_obligation(prop, o, tier, seed, scratch):
         res['verdict'] = 'VACUOUS'
     elif exhausted:
         res['verdict'] = 'PROVED-IN-BOUNDS'
-    elif not o.exhaustive:
+    elif not o.exhaustive_for(tier):
         res['verdict'] = 'EXPLORED-NO-VIOLATION'
     else:
         res['verdict'] = 'INCONCLUSIVE'
